@@ -78,6 +78,39 @@ func genCacheSuite(r *hx.R, tier, scratch, prop string) (*hx.Suite, error) {
 			_ = cache.Configure(cdi.WithAutoRefresh(false))
 		}
 	}
+	// a stream aimed at reconfiguration without a mode change: a cache in automatic mode is given another list of
+	// directories by Configure(WithSpecDirs) alone; it must answer from the new directories at once and keep following them
+	for k := 0; k < 8; k++ {
+		rootA := filepath.Join(scratch, fmt.Sprintf("sa%d", k))
+		rootB := filepath.Join(scratch, fmt.Sprintf("sb%d", k))
+		fsA := genFS(r, rootA, false, faults, false)
+		fsB := genFS(r, rootB, false, faults, false)
+		if k%2 == 1 && len(fsA.Dirs) > 0 {
+			// the new list shares a directory with the old one
+			fsB.Dirs = append(fsB.Dirs, fsA.Dirs[0])
+		}
+		fsA.materialise()
+		fsB.materialise()
+		cache, _ := cdi.NewCache(cdi.WithSpecDirs(fsA.dirList()...), cdi.WithAutoRefresh(true))
+		hist := []string{"cache created in automatic mode on another list of directories: " + fmt.Sprint(fsA.dirList())}
+		emit := func() {
+			o := settleQuiet(cache, fsB.dirList(), probes, 3*time.Second, fsB.missingDirs())
+			o.Auto = true
+			s.Add(hx.Case{Term: hx.C("Case01", fsB.term(), o.term()),
+				Desc: map[string]interface{}{"dirs": fsB.desc(), "auto_refresh": true, "history": append([]string{}, hist...),
+					"observed": map[string]interface{}{"devices": o.Devices, "error_keys": o.ErrKeys, "dir_error_keys": o.DirErrs, "refresh_error": o.RefErr}},
+				Class: "dirs-switch", Key: fsB.term() + fmt.Sprint(len(hist)), Nontrivial: true})
+		}
+		_ = settle(cache, fsA.dirList(), probes, 3*time.Second, fsA.missingDirs())
+		_ = cache.Configure(cdi.WithSpecDirs(fsB.dirList()...))
+		hist = append(hist, "configure: these directories, mode untouched")
+		emit()
+		for st := 0; st < 2; st++ {
+			hist = append(hist, fsB.mutate(r, false, faults))
+			emit()
+		}
+		_ = cache.Configure(cdi.WithAutoRefresh(false))
+	}
 	for li := 0; li < layouts; li++ {
 		root := filepath.Join(scratch, fmt.Sprintf("l%d", li))
 		auto := li%3 == 2
